@@ -17,7 +17,6 @@
 package jsonproto
 
 import (
-	"bytes"
 	"encoding/binary"
 	"io"
 	"strconv"
@@ -93,7 +92,7 @@ func (j *jsonproto) Pack(m erpc.Message) error {
 	bb.Write(msg6)
 	bb.WriteString(strconv.FormatInt(int64(m.BodyCodec()), 10))
 	bb.Write(msg7)
-	bb.Write(bytes.Replace(bodyBytes, []byte{'"'}, []byte{'\\', '"'}, -1))
+	bb.B = utils.AppendJSONStrBody(bb.B, bodyBytes)
 	bb.Write(msg8)
 
 	// do transfer pipe
